@@ -12,3 +12,13 @@ package bluge
 //@   requires s != nil
 //@   requires [no-nil-entries] forall j int :: (0 <= j && j < len(s.sort)) ==> s.sort[j] != nil
 //@   modifies
+
+// C10: a date range end point travels as the float64 whose bit pattern is the instant's nanosecond
+// count; the numeric range searcher takes an infinite float for an open end, so the instant must not
+// be one of the two whose pattern is an infinity.
+//@ func DateRangeQuery.parseEndpoints() (min, max, err)
+//@   props C10
+//@   mode bv fp
+//@   requires q != nil
+//@   modifies
+//@   at call Int64ToFloat64: assert [end-point-is-not-taken-for-an-open-end] i2fbits(i) != 0x7FF0000000000000 && i2fbits(i) != 0xFFF0000000000000
